@@ -46,7 +46,7 @@ backtracking search is `≤ 0` and the search ends with its tolerance flag set (
 gave up and went back to the step length 0), `lineSearch` leaves the function at a point where the
 objective is not above the objective at the parameters the search started from.  Neither hypothesis can
 be dropped: stopped by its cap of 10000 steps the search reports its last, rejected, trial; for a
-positive slope the acceptance test `f ≤ fold + 1e-4 λ slope` accepts an increase (`BfgsWitness`). -/
+positive slope the acceptance test `f ≤ fold + 1e-4 λ slope` accepts an increase (`BfgsExample`). -/
 theorem line_search_descent (obj : List ℝ → ℝ) (D : Deriv ℝ) (cap : Option Nat) (fuel : Nat) (fn fn' : Fn ℝ)
     (parameters pl : PList ℝ) (xi gradient xi' : List ℝ) (k : Nat) (hg : Good parameters)
     (hslope : dotFrom (0 : ℝ) xi gradient ≤ 0)
@@ -126,53 +126,42 @@ theorem cg_descent (obj : List ℝ → ℝ) (D : Deriv ℝ) (cap : Option Nat) (
   · simp only [Spec.consistent, ScalarReal.eqb_iff]; rw [← hcur]; exact h2.cur
   · exact h2.coord.sync.stateAt
 
-/-- **bfgs_step_descent_or_flag**.  A `BfgsMultiDimensions::doStep` from a state in which the
-optimiser's parameters are good, named `ns`, and held by the function: the same holds afterwards, the
-value returned is the objective at the point the function is left at, and it is not above the
-optimiser's current value — or it is, and the step has set the tolerance flag (the branch
-"!!! Function increase !!!" of the source). -/
-theorem bfgs_step_descent_or_flag (obj : List ℝ → ℝ) (D : Deriv ℝ) (cap : Option Nat) (fuel : Nat) (len : Nat)
+/-- **bfgs_step_descent**.  A `BfgsMultiDimensions::doStep` (repaired) from a state in which the
+optimiser's parameters are good, named `ns`, held by the function, and the current value is the objective
+there: the same holds afterwards, the value returned is the objective at the point the function is left
+at, and it is not above the optimiser's current value.  A trial that ends higher (possible when the
+direction clipped to the bounds is not a descent direction) is given up: the step sets the parameters
+back to the values it started from, evaluates there and sets the tolerance flag. -/
+theorem bfgs_step_descent (obj : List ℝ → ℝ) (D : Deriv ℝ) (cap : Option Nat) (fuel : Nat) (len : Nat)
     (ns : List Nat) (hns : ns.Nodup ∧ ∀ n ∈ ns, n < len) (s s' : St (Fn ℝ) (Bfgs ℝ) ℝ) (v : ℝ)
-    (hi : Coord.Inv len ns s) (h : bfgsDoStep (Fn.iface obj D cap) fuel s = .ok (s', v)) :
-    Coord.Inv len ns s' ∧ v = obj s'.fn.point ∧ (v ≤ s.core.cur ∨ (s.core.cur < v ∧ s'.core.tol = true)) :=
-  bfgsDoStep_spec obj D cap len ns hns fuel s s' v hi h
+    (hi : Coord.Inv len ns s) (hcur : s.core.cur = obj s.fn.point)
+    (h : bfgsDoStep (Fn.iface obj D cap) fuel s = .ok (s', v)) :
+    Coord.Inv len ns s' ∧ v = obj s'.fn.point ∧ Spec.descent v s.core.cur = true := by
+  obtain ⟨a, b, c⟩ := bfgsDoStep_spec obj D cap len ns hns fuel s s' v hi hcur h
+  exact ⟨a, b, by simp only [Spec.descent, ScalarReal.leb_iff]; exact c⟩
 
-/-- **bfgs_descent_partial** (with `reported_value_consistent` and `state_at_report`).  After `init`
-and `optimize` the value returned is the objective at the point the function has been left at, that
-point holds the values the optimiser reports, it is the optimiser's current value, and
-* it is not above the objective at the starting point, **or**
-* the run ended on a step (`sb → sa`) that began with the loop's guard true and a current value not
-  above the objective at the starting point, and returned a higher value `v`: the case in which
-  `doStep` takes its branch `if (f > currentValue_) { "!!! Function increase !!!"; tolIsReached_ = true;
-  return f; }` (`bfgs_step_descent_or_flag`), after which the loop stops.
+/-- **bfgs_descent** (with `reported_value_consistent` and `state_at_report`): the same as `cg_descent`
+for `BfgsMultiDimensions` — `doInit` sets the function to the list given to `init`, every step is a line
+search followed by an evaluation at the parameters it returns, and a step that ends above the current
+value goes back to where it started (`bfgs_step_descent`).
 
-The suffix `_partial` is deliberate: the full clause ("the value reported is not above the starting
-value" for all inputs) is **false of the code as it exists**, and the code says so itself.  The
-direction `-H g` is clipped to the bounds by `setDirection`: for a parameter within `TINY` of a bound
-the component is replaced by `bound - p`, whatever its sign, which can turn a descent direction into an
-ascent direction (slope `xi · g > 0`); the Newton backtracking search then accepts a trial with
-`fold < f ≤ fold + 1e-4 · λ · slope`.  Counterexample (`Bpp.Optim.BfgsWitness`, checked by the kernel on
-the same program text in exact rational arithmetic, see the `example` below): two parameters,
-`x0 ∈ [0, 10]` (both ends included) at `10` and `x1` unconstrained at `0`, the objective
-`-10⁶ (x0 - 10) + 5·10⁻⁴ x1 - 2.9998 x1²` with its true derivatives, policy `keep`.  Then `Up_0 = 10 - TINY`,
-the gradient is `(-10⁶, 5·10⁻⁴)`, the direction `(10⁶, -5·10⁻⁴)` is clipped to `(-TINY, -5·10⁻⁴)`, the slope
-is `10⁶ · TINY - 2.5·10⁻⁷ ≈ 7.5·10⁻⁷ > 0`, the first trial (step length 1) has the value `≈ 5·10⁻¹¹`, above the
-starting value `0` and below `7.5·10⁻¹¹`: accepted.  `doStep` finds `f > currentValue_`, prints the message,
-sets the flag and returns the higher value, and `optimize` returns it.  (The theorem moreover quantifies
-over derivatives `D` that need not be those of `obj`.)  What is proved is exactly what the code
-guarantees: an increase can only come from one step, the last one, which began no higher than the start
-and is flagged. -/
-theorem bfgs_descent_partial (obj : List ℝ → ℝ) (D : Deriv ℝ) (cap : Option Nat) (fuel fuel' : Nat)
+Before the repair (findings/C10.json, corpus/C10/bfgs_increase.txt) this was false: a step that
+increased the function printed "!!! Function increase !!!", set the tolerance flag and *returned the
+higher value*, so the run ended on the worse point.  The direction `-H g` is clipped to the bounds by
+`setDirection` — for a parameter within `TINY` of a bound the component is replaced by `bound - p`,
+whatever its sign —, which can turn a descent direction into an ascent direction (slope `xi · g > 0`), and
+the Newton backtracking search then accepts a trial with `fold < f ≤ fold + 1e-4 · λ · slope`.  The input
+that showed it (`Bpp.Optim.BfgsExample`: `x0 ∈ [0, 10]` at `10`, `x1` free at `0`, the objective
+`-10⁶ (x0 - 10) + 5·10⁻⁴ x1 - 2.9998 x1²`) now ends back at its starting point: see the `example` below. -/
+theorem bfgs_descent (obj : List ℝ → ℝ) (D : Deriv ℝ) (cap : Option Nat) (fuel fuel' : Nat)
     (s s1 s2 : St (Fn ℝ) (Bfgs ℝ) ℝ) (params : PList ℝ) (v : ℝ)
     (hgood : Good params) (hnd : (names params).Nodup) (hlt : ∀ n ∈ names params, n < s.fn.point.length)
     (hinit : (bfgsAlgo (Fn.iface obj D cap) fuel).init s params = .ok s1)
     (hopt : (bfgsAlgo (Fn.iface obj D cap) fuel).optimize fuel' s1 = .ok (s2, v)) :
+    Spec.descent v (obj (matchPoint s.fn.point params)) = true ∧
     Spec.consistent obj v s2.fn.point = true ∧
     Spec.stateAt s2.fn.point (names s2.core.params) (values s2.core.params) = true ∧
-    s2.core.cur = v ∧
-    (Spec.descent v (obj (matchPoint s.fn.point params)) = true ∨
-     ∃ sb sa : St (Fn ℝ) (Bfgs ℝ) ℝ, Guard sb ∧ sb.core.cur ≤ obj (matchPoint s.fn.point params) ∧
-       (bfgsAlgo (Fn.iface obj D cap) fuel).step sb = .ok (sa, v) ∧ sb.core.cur < v ∧ s2 = bump sa) := by
+    s2.core.cur = v := by
   have hi := given_init_spec obj D cap (bfgsAlgo (Fn.iface obj D cap) fuel) rfl rfl s s1 params hgood ⟨hnd, hlt⟩
     (by
       intro s0 sa h
@@ -191,12 +180,11 @@ theorem bfgs_descent_partial (obj : List ℝ → ℝ) (D : Deriv ℝ) (cap : Opt
             · simp only [Except.ok.injEq] at h
               subst h
               exact ⟨rfl, hsp⟩) hinit
-  obtain ⟨a, b, c, d⟩ := bfgs_optimize_spec obj D cap _ _ _ ⟨hnd, hlt⟩ fuel fuel' s1 s2 v hi hopt
-  refine ⟨?_, a.sync.stateAt, c, ?_⟩
-  · simp only [Spec.consistent, ScalarReal.eqb_iff]; exact b
-  · rcases d with d | d
-    · left; simp only [Spec.descent, ScalarReal.leb_iff]; exact d
-    · right; exact d
+  obtain ⟨h2, hcur⟩ := bfgs_optimize_spec obj D cap _ _ _ ⟨hnd, hlt⟩ fuel fuel' s1 s2 v hi hopt
+  refine ⟨?_, ?_, ?_, hcur⟩
+  · simp only [Spec.descent, ScalarReal.leb_iff]; rw [← hcur]; exact h2.below
+  · simp only [Spec.consistent, ScalarReal.eqb_iff]; rw [← hcur]; exact h2.cur
+  · exact h2.coord.sync.stateAt
 
 /-- non-vacuity: a list as the harness builds them (an interval constraint on the first parameter,
 none on the second) satisfies the hypotheses of the theorems above -/
@@ -212,9 +200,10 @@ example : let c : Interval ℝ := ⟨.fin 0, .fin 10, true, true, 0⟩
     simp [Param.invOk, Param.accepts, c, Interval.isCorrect, Interval.isCorrectB, Bound.geb, Bound.leb]; norm_num
   · exact ⟨rfl, rfl⟩
 
-/-- the counterexample to the full descent clause for BFGS (see `bfgs_descent_partial`): on the same
-program text in exact rational arithmetic, from a feasible list, `init` and `optimize` return, the value
-returned is above the objective at the starting point, and the tolerance flag is set -/
-example : BfgsWitness.increased = true := BfgsWitness.increased_true
+/-- the input on which BFGS used to end above its starting value (see `bfgs_descent`): on the same
+program text in exact rational arithmetic, from a feasible list, `init` and `optimize` return, the
+increase is seen (the tolerance flag is set), and the run ends back at the starting point with a value
+not above the starting value -/
+example : BfgsExample.backAtStart = true := BfgsExample.backAtStart_true
 
 end Bpp.C10
